@@ -1,0 +1,30 @@
+// SPDX-FileCopyrightText: (C) 2024 Intel Corporation
+// SPDX-License-Identifier: Apache 2.0
+
+//go:build verif
+
+package cbor
+
+import "reflect"
+
+// VerifField describes one slot of a struct's CBOR array encoding, in wire
+// order, exactly as fieldOrder computes it for the encoder and decoder.
+type VerifField struct {
+	Index     []int
+	Omittable bool
+	Flat      int // 0 if the field does not carry a flatN option
+}
+
+// VerifFieldOrder exposes fieldOrder for the verification harness.
+func VerifFieldOrder(t reflect.Type) []VerifField {
+	indices, omittable := fieldOrder(t.NumField(), t.Field)
+	fields := make([]VerifField, len(indices))
+	for i, idx := range indices {
+		n, _ := flatN(t.FieldByIndex(idx))
+		fields[i] = VerifField{Index: idx, Omittable: omittable(idx), Flat: n}
+	}
+	return fields
+}
+
+// VerifDecodeRaw exposes Decoder.decodeRaw.
+func (d *Decoder) VerifDecodeRaw() ([]byte, error) { return d.decodeRaw() }
